@@ -126,6 +126,9 @@ func wireElem(w *spec.WCase, e *spec.WElem) string {
 		for _, f := range e.Fields {
 			q = append(q, fmt.Sprintf("%q", f))
 		}
+		if len(q) == 0 {
+			return fmt.Sprintf("wire.Struct(new(%s))", c.Expr(e.Struct, "")) // no field is injected
+		}
 		return fmt.Sprintf("wire.Struct(new(%s), %s)", c.Expr(e.Struct, ""), strings.Join(q, ", "))
 	case "fieldsof":
 		var q []string
